@@ -26,7 +26,7 @@ def run(cmd, **kw):
 
 
 def main():
-    src = sys.argv[1]
+    src = os.path.abspath(sys.argv[1])
     only = [a for a in sys.argv[2:] if not a.startswith("--")]
     thorough = "--thorough" in sys.argv
     rows = []
